@@ -23,6 +23,15 @@ The layers build on each other (the host theorems use the service theorems, …)
 stones between them live in this file too; the property theorems proper are the ones listed in
 `checks/C15.json`.  IPv4 / IPv6 text is std's and enters through the parameter `C : HostCodec` with the
 explicit hypothesis `C.Lawful` (satisfiable: `toyCodec_lawful`; checked on std itself by the harness).
+
+DNS TXT *record level* (last section; `txt_record_to_string`, the record loop of `resolve`,
+`resolve_txt_records_with_invalid`): `txtRecords_total` (no panic for any list of resource records, any split
+into character-strings, any UTF-8 decoder), `txtRecords_accepts_iff` / `txtRecords_accept_only_spellings` (the
+returned addresses are exactly, in order, those of the records that are the version prefix followed by a payload
+spelling – `TxtRecordsSp`), `txtRecords_noValid_iff` / `txtRecords_noValid_entries` (the lookup fails iff there is no
+such record; which invalid entries are reported), `txtRecords_parse_show` (written records resolve to their
+addresses however they are split).  `String::from_utf8` is std's: parameter `U : Utf8Codec`, hypothesis `U.Lawful`
+only for the round trip (satisfiable: `asciiUtf8_lawful`).
 -/
 namespace ScionVerif.AddrText
 open ScionVerif.Generated.Addr
@@ -1882,5 +1891,310 @@ theorem repaired_witnesses :
     parseSocketAddr stdCodec "x1-ff00:0:110,10.0.0.1y:1000".toList = .err ∧
     parseSvc (showSvc 3) = some 3 ∧ showSvc 3 = "<SVC:0x0003>".toList ∧
     parseTxt stdCodec "[19-ff00:0:110,192.0.2.1],".toList = .err := by decide
+
+/-! ## DNS TXT record level (`txt_record_to_string`, the record loop of `resolve`,
+`resolve_txt_records_with_invalid`) -/
+
+/-- the texts the record loop of `resolve` hands on: the records whose concatenated character-strings
+    decode, in order -/
+def decodedRecords (U : Utf8Codec) (rrs : List TxtRR) : List Str :=
+  rrs.filterMap (fun rr => U.decode rr.flatten)
+
+theorem collectTxtRecords_fst (U : Utf8Codec) : ∀ rrs, (collectTxtRecords U rrs).1 = decodedRecords U rrs
+  | [] => rfl
+  | rr :: rest => by
+    unfold collectTxtRecords decodedRecords txtRecordToString
+    have ih := collectTxtRecords_fst U rest
+    unfold decodedRecords at ih
+    cases h : U.decode rr.flatten with
+    | none => simp [h, ih]
+    | some s => simp [h, ih]
+
+/-- a record text that contributes the addresses `l`: exactly the version prefix followed by a spelling of
+    the non-empty list `l` of SCION IP addresses – every character of the record is accounted for -/
+def TxtRecordSp (C : HostCodec) (l : List ScionAddr) (r : Str) : Prop :=
+  ∃ p, r = TXT_PREFIX ++ p ∧ TxtSp C l p ∧ l ≠ [] ∧ ∀ a ∈ l, a.Valid ∧ a.IsIp
+
+/-- declarative reading of a list of record texts: a record that is prefix + payload spelling contributes
+    its addresses, every other record contributes nothing; order is kept -/
+inductive TxtRecordsSp (C : HostCodec) : List Str → List ScionAddr → Prop
+  | nil : TxtRecordsSp C [] []
+  | skip {r : Str} {rs : List Str} {out : List ScionAddr} :
+      (∀ l, ¬ TxtRecordSp C l r) → TxtRecordsSp C rs out → TxtRecordsSp C (r :: rs) out
+  | take {r : Str} {rs : List Str} {l out : List ScionAddr} :
+      TxtRecordSp C l r → TxtRecordsSp C rs out → TxtRecordsSp C (r :: rs) (l ++ out)
+
+theorem txtRecordSp_iff {C : HostCodec} (hC : C.Lawful) (l : List ScionAddr) (r : Str) :
+    TxtRecordSp C l r ↔ ∃ p, stripPrefix TXT_PREFIX r = some p ∧ parseTxt C p = .ok l := by
+  constructor
+  · rintro ⟨p, rfl, h⟩
+    exact ⟨p, stripPrefix_some.2 rfl, (txt_accepts_iff C hC p l).2 h⟩
+  · rintro ⟨p, hp, h⟩
+    exact ⟨p, stripPrefix_some.1 hp, (txt_accepts_iff C hC p l).1 h⟩
+
+/-- the loop of `resolve_txt_records_with_invalid` never panics and appends, to its two accumulators, the
+    addresses the declarative reading gives and the texts of the prefixed records that are not spellings -/
+theorem resolveTxtLoop_spec {C : HostCodec} (hC : C.Lawful) : ∀ (rs : List Str) (valid : List ScionAddr) (invalid : List Str),
+    ∃ out inv, resolveTxtLoop C rs valid invalid = some (valid ++ out, invalid ++ inv) ∧ TxtRecordsSp C rs out ∧
+      inv = rs.filter (fun r => match stripPrefix TXT_PREFIX r with
+        | none => false
+        | some p => match parseTxt C p with | .ok _ => false | _ => true)
+  | [], valid, invalid => ⟨[], [], by simp [resolveTxtLoop], .nil, rfl⟩
+  | r :: rs, valid, invalid => by
+    unfold resolveTxtLoop
+    cases hp : stripPrefix TXT_PREFIX r with
+    | none =>
+      obtain ⟨out, inv, h1, h2, h3⟩ := resolveTxtLoop_spec hC rs valid invalid
+      refine ⟨out, inv, h1, .skip ?_ h2, ?_⟩
+      · intro l hl
+        obtain ⟨p, hp', _⟩ := (txtRecordSp_iff hC l r).1 hl
+        rw [hp] at hp'; cases hp'
+      · simp [hp, h3]
+    | some p =>
+      cases ht : parseTxt C p with
+      | panic => exact absurd ht (txt_total C p)
+      | ok l =>
+        obtain ⟨out, inv, h1, h2, h3⟩ := resolveTxtLoop_spec hC rs (valid ++ l) invalid
+        refine ⟨l ++ out, inv, by simpa [ht] using h1, .take ((txtRecordSp_iff hC l r).2 ⟨p, hp, ht⟩) h2, ?_⟩
+        simp [hp, ht, h3]
+      | err =>
+        obtain ⟨out, inv, h1, h2, h3⟩ := resolveTxtLoop_spec hC rs valid (invalid ++ [r])
+        refine ⟨out, r :: inv, by simpa [ht] using h1, .skip ?_ h2, ?_⟩
+        · intro l hl
+          obtain ⟨p', hp', ht'⟩ := (txtRecordSp_iff hC l r).1 hl
+          rw [hp] at hp'; cases hp'; rw [ht] at ht'; cases ht'
+        · simp [hp, ht, h3]
+
+/-- the declarative reading is a function of the record texts -/
+theorem txtRecordsSp_unique {C : HostCodec} (hC : C.Lawful) : ∀ {rs : List Str} {o1 o2 : List ScionAddr},
+    TxtRecordsSp C rs o1 → TxtRecordsSp C rs o2 → o1 = o2 := by
+  intro rs o1 o2 h1
+  induction h1 generalizing o2 with
+  | nil => intro h2; cases h2; rfl
+  | skip hn _ ih =>
+    intro h2
+    cases h2 with
+    | skip _ h2' => exact ih h2'
+    | take hl _ => exact absurd hl (hn _)
+  | take hl _ ih =>
+    intro h2
+    cases h2 with
+    | skip hn _ => exact absurd hl (hn _)
+    | take hl' h2' =>
+      obtain ⟨p, hp, ht⟩ := (txtRecordSp_iff hC _ _).1 hl
+      obtain ⟨p', hp', ht'⟩ := (txtRecordSp_iff hC _ _).1 hl'
+      rw [hp] at hp'; cases hp'; rw [ht] at ht'; cases ht'
+      rw [ih h2']
+
+/-- **the TXT record level never panics**, whatever the records, their split into character-strings and the
+    UTF-8 decoder are -/
+theorem txtRecords_total (C : HostCodec) (U : Utf8Codec) (rrs : List TxtRR) :
+    resolveTxtRRs C U rrs ≠ .panic := by
+  have loop : ∀ (rs : List Str) (valid : List ScionAddr) (invalid : List Str), resolveTxtLoop C rs valid invalid ≠ none := by
+    intro rs
+    induction rs with
+    | nil => intro valid invalid; simp [resolveTxtLoop]
+    | cons r rs ih =>
+      intro valid invalid
+      unfold resolveTxtLoop
+      split
+      · exact ih _ _
+      · next p _ =>
+        split
+        · exact ih _ _
+        · exact ih _ _
+        · next ht => exact absurd ht (txt_total C p)
+  unfold resolveTxtRRs resolveTxtRecords
+  split
+  · next h => exact absurd h (loop _ _ _)
+  · split <;> simp
+
+/-- **the addresses a lookup returns are exactly those of the records that are the version prefix followed by
+    a payload spelling, in record order** – no other record contributes an address, nothing inside an
+    accepted record is dropped, no such record is lost; and the lookup succeeds iff there is such a record -/
+theorem txtRecords_accepts_iff (C : HostCodec) (hC : C.Lawful) (U : Utf8Codec) (rrs : List TxtRR) (addrs : List ScionAddr) :
+    resolveTxtRRs C U rrs = .ok addrs ↔ addrs ≠ [] ∧ TxtRecordsSp C (decodedRecords U rrs) addrs := by
+  unfold resolveTxtRRs resolveTxtRecords
+  obtain ⟨out, inv, h, hsp, _⟩ := resolveTxtLoop_spec hC (collectTxtRecords U rrs).1 [] (collectTxtRecords U rrs).2
+  rw [h, collectTxtRecords_fst] at *
+  simp only [List.nil_append]
+  constructor
+  · intro hr
+    split at hr
+    · cases hr
+    · next hne => cases hr; exact ⟨by simpa using hne, hsp⟩
+  · rintro ⟨hne, hsp'⟩
+    have := txtRecordsSp_unique hC hsp hsp'
+    subst this
+    rw [if_neg (by simpa using hne)]
+
+/-- the accept-only direction, as the property states it -/
+theorem txtRecords_accept_only_spellings (C : HostCodec) (hC : C.Lawful) (U : Utf8Codec) (rrs : List TxtRR)
+    (addrs : List ScionAddr) (h : resolveTxtRRs C U rrs = .ok addrs) :
+    addrs ≠ [] ∧ TxtRecordsSp C (decodedRecords U rrs) addrs :=
+  (txtRecords_accepts_iff C hC U rrs addrs).1 h
+
+/-- a set of records none of which is a spelling contributes nothing … -/
+theorem txtRecordsSp_nil_iff {C : HostCodec} : ∀ {rs : List Str},
+    TxtRecordsSp C rs [] ↔ ∀ r ∈ rs, ∀ l, ¬ TxtRecordSp C l r := by
+  intro rs
+  induction rs with
+  | nil => exact ⟨fun _ r hr => (by cases hr), fun _ => TxtRecordsSp.nil⟩
+  | cons r rs ih =>
+    constructor
+    · intro h
+      generalize ho : ([] : List ScionAddr) = o at h
+      cases h with
+      | skip hn h' =>
+        subst ho
+        intro x hx
+        rcases List.mem_cons.1 hx with rfl | hx
+        · exact hn
+        · exact ih.1 h' x hx
+      | take hl h' =>
+        obtain ⟨_, _, _, hne, _⟩ := hl
+        exact absurd (List.append_eq_nil_iff.1 ho.symm).1 hne
+    · intro h
+      exact .skip (h r (by simp)) (ih.2 (fun x hx => h x (by simp [hx])))
+
+/-- **… and the lookup fails with `NoValidEntries` exactly then**: iff no record that decodes is the version
+    prefix followed by a payload spelling (an invalid record next to a valid one is *skipped*, it does not make
+    the lookup fail – `resolver.rs`: "Partial failures SHOULD return the valid addresses") -/
+theorem txtRecords_noValid_iff (C : HostCodec) (hC : C.Lawful) (U : Utf8Codec) (rrs : List TxtRR) :
+    (∃ inv, resolveTxtRRs C U rrs = .noValid inv) ↔ ∀ r ∈ decodedRecords U rrs, ∀ l, ¬ TxtRecordSp C l r := by
+  rw [← txtRecordsSp_nil_iff]
+  unfold resolveTxtRRs resolveTxtRecords
+  obtain ⟨out, inv, h, hsp, _⟩ := resolveTxtLoop_spec hC (collectTxtRecords U rrs).1 [] (collectTxtRecords U rrs).2
+  rw [h, collectTxtRecords_fst] at *
+  simp only [List.nil_append]
+  constructor
+  · rintro ⟨i, hr⟩
+    split at hr
+    · next he => rw [List.isEmpty_iff.1 he] at hsp; exact hsp
+    · cases hr
+  · intro hsp'
+    have := txtRecordsSp_unique hC hsp hsp'
+    subst this
+    exact ⟨(collectTxtRecords U rrs).2 ++ inv, by simp⟩
+
+/-- the invalid entries reported with `NoValidEntries`: one `<invalid-utf8>` per record that does not decode,
+    then the text of every record that carries the prefix -/
+theorem txtRecords_noValid_entries (C : HostCodec) (hC : C.Lawful) (U : Utf8Codec) (rrs : List TxtRR) (inv : List Str)
+    (h : resolveTxtRRs C U rrs = .noValid inv) :
+    inv = (collectTxtRecords U rrs).2 ++ (decodedRecords U rrs).filter (fun r => (stripPrefix TXT_PREFIX r).isSome) := by
+  have hno := (txtRecords_noValid_iff C hC U rrs).1 ⟨inv, h⟩
+  unfold resolveTxtRRs resolveTxtRecords at h
+  obtain ⟨out, inv', h', _, hinv⟩ := resolveTxtLoop_spec hC (collectTxtRecords U rrs).1 [] (collectTxtRecords U rrs).2
+  rw [h'] at h
+  rw [collectTxtRecords_fst] at hinv
+  simp only [List.nil_append] at h
+  by_cases he : out.isEmpty
+  · rw [if_pos he] at h
+    cases h
+    rw [hinv]
+    congr 1
+    apply List.filter_congr
+    intro r hr
+    cases hp : stripPrefix TXT_PREFIX r with
+    | none => simp
+    | some p =>
+      cases ht : parseTxt C p with
+      | ok l => exact absurd ((txtRecordSp_iff hC l r).2 ⟨p, hp, ht⟩) (hno r hr l)
+      | err => simp [ht]
+      | panic => simp [ht]
+  · rw [if_neg he] at h
+    cases h
+
+/-! ### a written record set resolves to its addresses, however the records are split -/
+
+/-- hypothesis on std's UTF-8 codec: decoding the encoding of a text gives the text -/
+structure Utf8Codec.Lawful (U : Utf8Codec) : Prop where
+  decode_encode : ∀ s, U.decode (U.encode s) = some s
+
+/-- the record text for a list of addresses: version prefix, then the documented address-list grammar -/
+def showTxtRecord (C : HostCodec) (l : List ScionAddr) : Str := TXT_PREFIX ++ showTxt C l
+
+theorem txtRecordsSp_shown {C : HostCodec} (hC : C.Lawful) : ∀ (ls : List (List ScionAddr)),
+    (∀ l ∈ ls, l ≠ [] ∧ ∀ a ∈ l, a.Valid ∧ a.IsIp) → TxtRecordsSp C (ls.map (showTxtRecord C)) ls.flatten
+  | [], _ => .nil
+  | l :: ls, hv => by
+    simp only [List.map_cons, List.flatten_cons]
+    refine .take ((txtRecordSp_iff hC _ _).2 ⟨showTxt C l, stripPrefix_some.2 rfl, ?_⟩)
+      (txtRecordsSp_shown hC ls (fun x hx => hv x (by simp [hx])))
+    exact txt_parse_show C hC l (hv l (by simp)).1 (hv l (by simp)).2
+
+/-- **round trip of the record level**: for every non-empty list of non-empty lists of valid SCION IP addresses,
+    the records `scion=v1;[ia,host],…` – each one split into character-strings in *any* way – resolve to exactly
+    those addresses, in order -/
+theorem txtRecords_parse_show (C : HostCodec) (hC : C.Lawful) (U : Utf8Codec) (hU : U.Lawful)
+    (ls : List (List ScionAddr)) (hne : ls ≠ []) (hv : ∀ l ∈ ls, l ≠ [] ∧ ∀ a ∈ l, a.Valid ∧ a.IsIp)
+    (rrs : List TxtRR) (hsplit : rrs.map List.flatten = ls.map (fun l => U.encode (showTxtRecord C l))) :
+    resolveTxtRRs C U rrs = .ok ls.flatten := by
+  rw [txtRecords_accepts_iff C hC]
+  have hdec : decodedRecords U rrs = ls.map (showTxtRecord C) := by
+    have : decodedRecords U rrs = (rrs.map List.flatten).filterMap U.decode := by
+      unfold decodedRecords; rw [List.filterMap_map]; rfl
+    rw [this, hsplit, List.filterMap_map]
+    clear hsplit this hv hne
+    induction ls with
+    | nil => rfl
+    | cons l ls ih => simp [hU.decode_encode, ih]
+  rw [hdec]
+  refine ⟨?_, txtRecordsSp_shown hC ls hv⟩
+  cases ls with
+  | nil => exact absurd rfl hne
+  | cons l ls =>
+    have := (hv l (by simp)).1
+    cases l with
+    | nil => exact absurd rfl this
+    | cons a l => simp
+
+/-! ### non-vacuity: a lawful UTF-8 codec exists; concrete record sets with std's IP codec -/
+
+/-- one "byte" per character (bytes are unbounded naturals in the model) – lawful; the driver uses Lean's real
+    UTF-8 validator, which the harness compares with std's on every record -/
+def asciiUtf8 : Utf8Codec where
+  decode bs := some (bs.map Char.ofNat)
+  encode s := s.map Char.toNat
+
+theorem asciiUtf8_lawful : asciiUtf8.Lawful where
+  decode_encode s := by
+    show some ((s.map Char.toNat).map Char.ofNat) = some s
+    rw [List.map_map]
+    congr 1
+    conv => rhs; rw [← List.map_id s]
+    apply List.map_congr_left
+    intro c _
+    exact Char.ofNat_toNat c
+
+example : ∃ U : Utf8Codec, U.Lawful := ⟨asciiUtf8, asciiUtf8_lawful⟩
+
+def bytesOf (s : String) : List Nat := s.toList.map Char.toNat
+
+/-- a record split into two character-strings inside the IP address is one text; a record with a bad ISD-AS
+    next to it is skipped; a record of another application is ignored -/
+theorem txtRecords_example :
+    resolveTxtRRs stdCodec asciiUtf8
+      [[bytesOf "v=spf1 ~all"], [bytesOf "scion=v1;[19-ff00:0:110,192.", bytesOf "0.2.1]"], [bytesOf "scion=v1;[bad,192.0.2.2]"]] =
+      .ok [⟨0x13ff0000000110, .v4 0xc0000201⟩] ∧
+    resolveTxtRRs stdCodec asciiUtf8 [[bytesOf "scion=v1;[bad,192.0.2.2]"], [bytesOf "scion=v2;[19-ff00:0:110,192.0.2.1]"]] =
+      .noValid ["scion=v1;[bad,192.0.2.2]".toList] ∧
+    resolveTxtRRs stdCodec asciiUtf8 [[bytesOf " scion=v1;[19-ff00:0:110,192.0.2.1]"], [bytesOf "scion=v1;[19-ff00:0:110,192.0.2.1]]"]] =
+      .noValid ["scion=v1;[19-ff00:0:110,192.0.2.1]]".toList] := by decide
+
+example : resolveTxtRRs toyCodec asciiUtf8 [[asciiUtf8.encode (showTxtRecord toyCodec [⟨0x13ff0000000110, .v4 0xc0000201⟩])]] =
+    .ok [⟨0x13ff0000000110, .v4 0xc0000201⟩] := by
+  have := txtRecords_parse_show toyCodec toyCodec_lawful asciiUtf8 asciiUtf8_lawful [[⟨0x13ff0000000110, .v4 0xc0000201⟩]]
+    (by simp) (by
+      intro l hl
+      simp only [List.mem_singleton] at hl
+      subst hl
+      refine ⟨by simp, ?_⟩
+      intro a ha
+      simp only [List.mem_singleton] at ha
+      subst ha
+      exact ⟨⟨by decide, by show 0xc0000201 < 2 ^ 32; decide⟩, fun v h => by cases h⟩)
+    [[asciiUtf8.encode (showTxtRecord toyCodec [⟨0x13ff0000000110, .v4 0xc0000201⟩])]] (by simp)
+  simpa using this
 
 end ScionVerif.AddrText
